@@ -1,10 +1,13 @@
 #!/bin/bash
-# usage: trymutant.sh <patch.diff> <PROP> [budget]   — apply a patch to /repo, run the quick check, revert.
+# usage: trymutant.sh <patch.diff> <PROP> [budget]
+# Applies a patch to a scratch worktree of /repo HEAD (never to /repo itself), runs the quick check against
+# it (VERIF_REPO), with evidence and replay files diverted to /tmp/mine, and removes the worktree.
 set -u
-P=$1; PROP=$2; B=${3:-25}
-cd /repo || exit 2
-if ! git diff --quiet; then echo "repo dirty"; exit 2; fi
-git apply "$P" || { echo "patch does not apply"; exit 2; }
-trap 'git -C /repo checkout -- . ; git -C /repo clean -fdq' EXIT
-cd /verif && VERIF_BUDGET=$B bin/check $PROP quick 2>&1 | grep -E "^(VIOLATION|OK|TROUBLE|KNOWN|REPLAY|explored|  under|  in every)" | cut -c1-300 | head -20
+P=$(readlink -f "$1"); PROP=$2; B=${3:-25}
+mkdir -p /tmp/mine
+WT=$(mktemp -d /tmp/mine/mutwt.XXXX)
+git -C /repo worktree add -q --detach $WT/wt HEAD || exit 2
+trap 'git -C /repo worktree remove --force $WT/wt; rm -rf $WT' EXIT
+git -C $WT/wt apply "$P" || { echo "patch does not apply"; exit 2; }
+cd /verif && VERIF_REPO=$WT/wt VERIF_TMP=/tmp/mine VERIF_EVIDENCE_DIR=/tmp/mine/evidence VERIF_REPLAY_DIR=/tmp/mine/replays VERIF_BUDGET=$B bin/check $PROP quick 2>&1 | grep -E "^(VIOLATION|OK|TROUBLE|KNOWN|REPLAY|explored|  under|  in every|  run alone)" | cut -c1-300 | head -20
 echo "exit=${PIPESTATUS[0]}"
